@@ -13,7 +13,9 @@ pub struct C07;
 
 pub fn user_autocorrect() -> HashMap<String, String> {
     // overrides some bundled keys and adds new ones
-    [("amar", "amaR"), ("ami", "tumi"), ("academy", "ekaDemi"), ("xyz", "onno"), ("kk", "kOk"), ("apni", "apni"), ("a", "A"), ("tmi", "tumi"), ("bd", "bangladesh")]
+    [("amar", "amaR"), ("ami", "tumi"), ("academy", "ekaDemi"), ("xyz", "onno"), ("kk", "kOk"), ("apni", "apni"), ("a", "A"), ("tmi", "tumi"), ("bd", "bangladesh"),
+     // identity entries that override a bundled entry with another value
+     ("atm", "atm"), ("computer", "computer"), ("ok", "ok")]
         .iter()
         .map(|(k, v)| (k.to_string(), v.to_string()))
         .collect()
@@ -306,6 +308,14 @@ impl Prop for C07 {
                 let (sess, u) = &c.v[(i / env.nshards + j * 3) % nctx];
                 out.begin_case(|| json!({"cfg": sess.spec.to_json(), "text": tx, "user_autocorrect": u}));
                 judge(&mut o, sess, if *u { Some(&c.user) } else { None }, tx, out, &mut t);
+            }
+            // texts whose word part (or a base of it) is a key of the user list always go through the contexts that have the list
+            let word = crate::oracle::phon::split(tx, false).1;
+            if c.user.keys().any(|k| word.starts_with(k.as_str())) && word.len() <= 12 {
+                for (sess, u) in c.v.iter().filter(|(_, u)| *u) {
+                    out.begin_case(|| json!({"cfg": sess.spec.to_json(), "text": tx, "user_autocorrect": u}));
+                    judge(&mut o, sess, Some(&c.user), tx, out, &mut t);
+                }
             }
         }
         let nrand = env.tier.pick(1_500, 30_000);
